@@ -504,6 +504,15 @@ type wseg struct {
 //
 //go:norace
 func parseWire(conn *simnet.Conn, calls []*WCall) (segs []wseg, bad string) {
+	segs, bad, _ = parseWireTail(conn, calls)
+	return
+}
+
+// parseWireTail is parseWire that tells a payload cut short by the end of the transmitted bytes (cutTail) from
+// other damage.
+//
+//go:norace
+func parseWireTail(conn *simnet.Conn, calls []*WCall) (segs []wseg, bad string, cutTail bool) {
 	wire := conn.Wire
 	evAt := func(off int) int64 {
 		for _, ev := range conn.Log {
@@ -517,26 +526,46 @@ func parseWire(conn *simnet.Conn, calls []*WCall) (segs []wseg, bad string) {
 	for pos < len(wire) {
 		id := int(wire[pos]) - 1
 		if id < 0 || id >= len(calls) {
-			return segs, fmt.Sprintf("byte at wire offset %d (0x%02x) starts no known payload", pos, wire[pos])
+			return segs, fmt.Sprintf("byte at wire offset %d (0x%02x) starts no known payload", pos, wire[pos]), false
 		}
 		c := calls[id]
 		if len(c.Want) == 0 {
-			return segs, fmt.Sprintf("byte at wire offset %d (0x%02x) belongs to no payload (the call with that identifier wrote zero bytes)", pos, wire[pos])
+			return segs, fmt.Sprintf("byte at wire offset %d (0x%02x) belongs to no payload (the call with that identifier wrote zero bytes)", pos, wire[pos]), false
 		}
 		if pos+len(c.Want) > len(wire) {
-			return segs, fmt.Sprintf("payload of call %s is cut short at wire offset %d (wire ends at %d)", c, pos, len(wire))
+			if !bytes.Equal(wire[pos:], c.Want[:len(wire)-pos]) {
+				return segs, fmt.Sprintf("payload of call %s is cut short at wire offset %d (wire ends at %d) and what is there differs from the caller's bytes", c, pos, len(wire)), false
+			}
+			return segs, fmt.Sprintf("payload of call %s is cut short at wire offset %d (wire ends at %d)", c, pos, len(wire)), true
 		}
 		if !bytes.Equal(wire[pos:pos+len(c.Want)], c.Want) {
 			k := 0
 			for k < len(c.Want) && wire[pos+k] == c.Want[k] {
 				k++
 			}
-			return segs, fmt.Sprintf("payload of call %s differs from the caller's bytes at payload offset %d (wire offset %d): got 0x%02x want 0x%02x", c, k, pos+k, wire[pos+k], c.Want[k])
+			return segs, fmt.Sprintf("payload of call %s differs from the caller's bytes at payload offset %d (wire offset %d): got 0x%02x want 0x%02x", c, k, pos+k, wire[pos+k], c.Want[k]), false
 		}
 		segs = append(segs, wseg{Call: id, Off: pos, EvSeq: evAt(pos)})
 		pos += len(c.Want)
 	}
-	return segs, ""
+	return segs, "", false
+}
+
+// transportEndedMidWrite: the last thing that happened on the sending side of the connection is a failed write or
+// the close of the transport, i.e. nothing was transmitted after the point where the byte stream ends.
+//
+//go:norace
+func transportEndedMidWrite(conn *simnet.Conn) bool {
+	ended := false
+	for _, ev := range conn.Log {
+		switch {
+		case ev.Kind == simnet.EvClose || ev.Kind == simnet.EvWriteErr:
+			ended = true
+		case isWriteEv(ev.Kind) && ev.N > 0 && ended:
+			return false
+		}
+	}
+	return ended
 }
 
 //go:norace
@@ -557,7 +586,14 @@ func classOf(c *WCall, cc ChanCfg) string {
 //go:norace
 func (h *WHist) OracleWireIntegrity(e *Env, orderClauses bool) []wseg {
 	conn := h.Rig.Conn
-	segs, bad := parseWire(conn, h.Calls)
+	segs, bad, cutTail := parseWireTail(conn, h.Calls)
+	if bad != "" && cutTail && h.Rig.Buffered && transportEndedMidWrite(conn) {
+		// behind the buffering wrapper one payload is handed to the connection in several pieces; a transport that is
+		// closed (or fails) between two of them ends the byte stream inside a payload. Whether the Close was allowed
+		// to do that is C06's close clauses' question, not damage done to the payload.
+		e.Count("stream_ended_inside_payload(buffered transport closed or failed mid-write)", 1)
+		bad = ""
+	}
 	if bad != "" {
 		e.Violate("intact", "wire-corrupt", "%s", bad)
 		return segs
